@@ -16,12 +16,13 @@ MAX_EVENTS = 4000
 
 
 class Event:
-    __slots__ = ("kind", "args", "dest", "line", "label", "hint", "callee", "site")
+    __slots__ = ("kind", "args", "dest", "line", "label", "hint", "callee", "site", "groups")
 
     def __init__(self, kind, args=(), dest=None, line=0, label=None, hint=None, callee=None):
         self.kind, self.args, self.dest, self.line = kind, list(args), dest, line
         self.label, self.hint, self.callee = label, hint, callee
         self.site = None
+        self.groups = None
 
     def __repr__(self):
         return "%s(%s)%s@L%s" % (self.kind, ",".join(map(str, self.args)), ("->%s" % self.dest) if self.dest is not None else "", self.line)
@@ -392,12 +393,20 @@ class Builder:
             ev = Event("build", vs, None, line)
             # per-branch outputs: [(name, &[&[vars]..], target)]
             branches = {}
+            groups = {}
             for a in args:
                 if a and a[0] == "arr":
                     for br in a[1]:
                         if br and br[0] == "tuple" and br[1] and br[1][0][0] == "const" and isinstance(br[1][0][1], str):
                             branches[br[1][0][1]] = [x for y in br[1][1:] for x in self._vars_in(y)]
+                            gl = []
+                            for y in br[1][1:]:
+                                if y and y[0] == "arr":
+                                    for grp in y[1]:
+                                        gl.append(self._vars_in(grp))
+                            groups[br[1][0][1]] = gl
             ev.label = branches or None
+            ev.groups = groups or None
             ev.site = bb
             events = events + [ev]
             env[dest] = ("unk",)
